@@ -84,8 +84,9 @@ def items(validator, items, instance, schema):
 def additionalItems(validator, aI, instance, schema):
     if (
         not validator.is_type(instance, "array") or
-        validator.is_type(schema.get("items", {}), "object")
+        not validator.is_type(schema.get("items", {}), "array")
     ):
+        # only an array-form ``items`` leaves any "additional" items
         return
 
     len_items = len(schema.get("items", []))
